@@ -29,6 +29,8 @@ InputsOK(c, in) ==
     /\ (HasW(c) => OperandOK(in.w, WShape(c)) /\ (c.op = "mttkrp" => \A k \in 1..Len(in.w.im) : in.w.im[k] = 0))
     /\ (HasMask(c) => OperandOK(in.mask, MaskShape(c)))
     /\ (c.op = "moment" => \A k \in 1..Len(in.ts[1].im) : in.ts[1].im[k] = 0)
+    \* aliasing form: operands with the same key are one object, hence carry the same values
+    /\ (c.alias => \A k \in 2..Len(sh) : \A j \in 1..(k - 1) : AliasKey(c, j) = AliasKey(c, k) => in.ts[k] = in.ts[j])
 
 OutOK(o, shape) == /\ o.shape = shape
                    /\ Len(o.re) = Size(shape) /\ Len(o.im) = Size(shape)
@@ -57,7 +59,7 @@ CallVerdict(e, o) ==
                    IF ~OutOK(o, exp.shape) THEN "Shape"
                    ELSE IF ~Same(ToT(o), exp) THEN "Value"
                    \* reported row number = row-major rank of the drawn indices in the full product
-                   ELSE IF o.rows # SampledRows(ts, o.idx, c.skip, c.ns) THEN "Rows"
+                   ELSE IF o.rows # (IF c.rsr THEN SampledRows(ts, o.idx, c.skip, c.ns) ELSE <<>>) THEN "Rows"
                    ELSE "ok"
          ELSE IF c.op = "tensordot" THEN
               \* output mode order: either documented reading (see Multilinear.Tensordot)
